@@ -1,5 +1,117 @@
-(* C12 property theorems (placeholder until the node development lands). *)
-From DD Require Import Base.Node.
-Theorem shape_children_leaf : forall i s, children (NL i s) = [].
-Proof. reflexivity. Qed.
-Print Assumptions shape_children_leaf.
+(* C12 property theorems: Node equality, pickling, deep copy, traversals.
+   Proofs are in Proofs/Node. *)
+From DD Require Import Model.NodeEq Model.Pickle Model.Copy Model.Trav.
+From DD Require Import Proofs.Node.EqSpec Proofs.Node.EqSm Proofs.Node.PickleRT
+  Proofs.Node.CopySpec Proofs.Node.TravSpec.
+From Coq Require Import Permutation.
+
+(* 1a *)
+Theorem eq_spec : forall hstr htup a b,
+  hash_ok hstr htup a = true -> hash_ok hstr htup b = true -> coherent a b ->
+  (node_eq hstr a b = true <-> shape a = shape b).
+Proof. exact EqSpec.eq_spec. Qed.
+Print Assumptions eq_spec.
+
+Theorem eq_complete : forall hstr htup a b,
+  hash_ok hstr htup a = true -> hash_ok hstr htup b = true ->
+  shape a = shape b -> node_eq hstr a b = true.
+Proof. exact EqSpec.eq_complete. Qed.
+Print Assumptions eq_complete.
+
+(* 1b *)
+Theorem eq_hash : forall hstr htup a b,
+  hash_ok hstr htup a = true -> hash_ok hstr htup b = true ->
+  shape a = shape b -> nhash hstr a = nhash hstr b.
+Proof. exact EqSpec.eq_hash. Qed.
+Print Assumptions eq_hash.
+
+(* 1c *)
+Theorem eq_sm_refines : forall hstr a b,
+  node_eq_sm hstr (2 * (nsize a + nsize b) + 2) a b = Some (node_eq hstr a b).
+Proof. exact EqSm.eq_sm_refines. Qed.
+Print Assumptions eq_sm_refines.
+
+Theorem eq_sm_stacks : forall hstr fuel vs vo,
+  length vs = length vo -> nsizes vs < fuel ->
+  eq_sm hstr fuel vs vo = Some (forallb2 (node_eq hstr) vs vo).
+Proof. exact EqSm.eq_sm_stacks. Qed.
+Print Assumptions eq_sm_stacks.
+
+(* 1d *)
+Theorem eq_refl_id : forall hstr a b, nid a = nid b -> node_eq hstr a b = true.
+Proof. exact EqSpec.eq_refl_id. Qed.
+Print Assumptions eq_refl_id.
+
+Theorem eq_sym : forall hstr a b, node_eq hstr a b = node_eq hstr b a.
+Proof. exact EqSpec.node_eq_sym. Qed.
+Print Assumptions eq_sym.
+
+(* 2 *)
+Theorem pickle_roundtrip : forall hstr htup n next,
+  hash_ok hstr htup n = true -> (forall i, In i (ids n) -> (0 < i)%Z) ->
+  unpk hstr htup (pk n) next = Some n.
+Proof. exact PickleRT.pickle_roundtrip. Qed.
+Print Assumptions pickle_roundtrip.
+
+Theorem pickle_no_alloc : forall hstr htup n next,
+  hash_ok hstr htup n = true -> (forall i, In i (ids n) -> (0 < i)%Z) ->
+  unpk_aux hstr htup (pk n) [(None, [])] next = Some ([(None, [n])], next).
+Proof. exact PickleRT.pickle_no_alloc. Qed.
+Print Assumptions pickle_no_alloc.
+
+(* 3 *)
+Theorem copy_shape : forall hstr htup next n,
+  shape (fst (copy hstr htup next n)) = shape n.
+Proof. exact CopySpec.copy_shape. Qed.
+Print Assumptions copy_shape.
+
+Theorem copy_fresh : forall hstr htup next n i,
+  In i (ids (fst (copy hstr htup next n))) -> (next < i <= snd (copy hstr htup next n))%Z.
+Proof. exact CopySpec.copy_fresh. Qed.
+Print Assumptions copy_fresh.
+
+Theorem copy_nodup : forall hstr htup next n,
+  NoDup (ids (fst (copy hstr htup next n))).
+Proof. exact CopySpec.copy_nodup. Qed.
+Print Assumptions copy_nodup.
+
+Theorem copy_hash_ok : forall hstr htup next n,
+  hash_ok hstr htup (fst (copy hstr htup next n)) = true.
+Proof. exact CopySpec.copy_hash_ok. Qed.
+Print Assumptions copy_hash_ok.
+
+Theorem copy_equal : forall hstr htup next n,
+  hash_ok hstr htup n = true -> (forall i, In i (ids n) -> (i <= next)%Z) ->
+  node_eq hstr (fst (copy hstr htup next n)) n = true.
+Proof. exact CopySpec.copy_equal. Qed.
+Print Assumptions copy_equal.
+
+(* 4a *)
+Theorem dfs_preorder : forall l, dfs 0 l = flat_map preorder l.
+Proof. exact TravSpec.dfs_preorder. Qed.
+Print Assumptions dfs_preorder.
+
+(* 4b *)
+Theorem bfs_spec : forall md l, bfs md l = Some (bfs_levels (heights l) md 1 l).
+Proof. exact TravSpec.bfs_spec. Qed.
+Print Assumptions bfs_spec.
+
+(* 4c *)
+Theorem visit_once : forall l r, bfs 0 l = Some r -> Permutation r (dfs 0 l).
+Proof. exact TravSpec.visit_once. Qed.
+Print Assumptions visit_once.
+
+(* 4d *)
+Theorem count_nodes_spec : forall l, count_nodes l = length (dfs 0 l).
+Proof. exact TravSpec.count_nodes_spec. Qed.
+Print Assumptions count_nodes_spec.
+
+Theorem count_exprs_spec : forall l,
+  count_exprs l = length (filter (fun n => negb (n_is_leaf n)) (dfs 0 l)).
+Proof. exact TravSpec.count_exprs_spec. Qed.
+Print Assumptions count_exprs_spec.
+
+(* 4e *)
+Theorem dfs_depth_limited : forall md l, incl (dfs md l) (dfs 0 l).
+Proof. exact TravSpec.dfs_depth_limited. Qed.
+Print Assumptions dfs_depth_limited.
